@@ -24,7 +24,9 @@ public:
         auto r = FirFilter::conv(x, _h);
         int nd = _h.size() - 1;
         int nx = x.size();
-        _d = x.slice((nx - nd), nx);
+        if (nd > 0) {
+            _d = x.slice((nx - nd), nx);   //a single-tap filter has no history (and slice(nx, nx) is out of range)
+        }
         return r;
     }
 
